@@ -154,6 +154,77 @@ def run_c19(ctx):
                     if ans != exp:
                         cell["disagreements"] += 1
                         ctx.footprint_disagreements.append(dict(phase="ganttR", case=case, real=exp, model=ans))
+        # the same object queried again after its log was edited IN PLACE (same list object, same
+        # length): the answer must follow the log, not an earlier call
+        k = 150 if ctx.tier == "quick" else 4000
+        objs = dict(task=(BaseTask("t"), TS_INV, 4), component=(BaseComponent("c"), CS_INV, 4),
+                    worker=(BaseWorker("w"), RSW_INV, 3), facility=(BaseFacility("f"), RSF_INV, 3))
+        for o, _, _ in objs.values():
+            o.state_record_list = []
+        for i in range(k):
+            n_eval += 1
+            cls = ("task", "component", "worker", "facility")[i % 4]
+            obj, inv, base = objs[cls]
+            L = len(obj.state_record_list)
+            if L == 0 or rng.random() < 0.2:
+                L = rng.randint(1, 8)
+                seq = [rng.randrange(base) for _ in range(L)]
+                obj.state_record_list[:] = [inv[x] for x in seq]
+            else:
+                seq = [rng.randrange(base) for _ in range(L)]
+                how = rng.random()
+                if how < 0.5:
+                    obj.state_record_list[:] = [inv[x] for x in seq]          # slice assignment
+                else:
+                    for j, x in enumerate(seq):                               # element assignment
+                        obj.state_record_list[j] = inv[x]
+            margin = 1.0
+            case = dict(stream="c19", kind=cls + " (object reused, log edited in place)", log=seq, margin=margin)
+            try:
+                res = obj.get_time_list_for_gannt_chart(finish_margin=margin)
+            except Exception as e:
+                ctx.violations.append(dict(property="C19", what="%s Gantt raised %r" % (cls, e), case=case))
+                continue
+            real = [[(a, F(n)) for a, n in x] for x in res]
+            if base == 4:
+                spec = [runs_of(1, seq, margin), runs_of(2, seq, margin)]
+            else:
+                spec = [runs_of(0, seq, margin), runs_of(1, seq, margin), runs_of(2, seq, margin)]
+            fps.add((cls, "reuse", tuple(seq)))
+            if real != spec:
+                ctx.violations.append(dict(property="C19", what="%s Gantt intervals do not follow the log after it was edited in place" % cls,
+                                           case=case, real=str(real), expected=str(spec)))
+        # ... and through the project API: simulate, ask, move the absence steps, ask again
+        k = 12 if ctx.tier == "quick" else 400
+        import gen as _gen
+        from lockstep import real_simulate as _rs
+        for i in range(k):
+            n_eval += 1
+            r2 = random.Random(ctx.seed * 7 + i)
+            spec_ = _gen.gen_spec(r2, "full")
+            params_ = dict(_gen.gen_params(r2, spec_), maxTime=30, absence=sorted(set(r2.choice([1, 2, 3, 4]) for _ in range(2))))
+            project = build(spec_)
+            try:
+                _rs(project, params_)
+                ix = Index(project)
+                for phase in range(3):
+                    for kind, lst, col in (("task", ix.tasks, (1, 2)), ("component", ix.comps, (1, 2)), ("worker", ix.workers, (0, 1, 2)), ("facility", ix.facs, (0, 1, 2))):
+                        mp = {"task": TS_MAP, "component": CS_MAP, "worker": RS_W_MAP, "facility": {v: k2 for k2, v in RSF_INV.items()}}[kind]
+                        for o in lst:
+                            seq = [mp[x] for x in o.state_record_list]
+                            res = o.get_time_list_for_gannt_chart(finish_margin=1.0)
+                            real = [[(a, F(n)) for a, n in x] for x in res]
+                            spec = [runs_of(c, seq, 1.0) for c in col]
+                            if real != spec:
+                                ctx.violations.append(dict(property="C19", what="%s Gantt intervals are not the runs of the current log after editing absence steps (call %d)" % (kind, phase),
+                                                           case=dict(stream="c19", kind="project history", spec=spec_, params=params_, log=seq)))
+                    if phase == 0:
+                        project.remove_absence_time_list()
+                        project.insert_absence_time_list([r2.choice([0, 1, 2, 3, 5]) for _ in range(2)])
+                    elif phase == 1:
+                        project.reverse_log_information()
+            except Exception as e:
+                ctx.infra.append("c19 project history crashed: %r" % e)
         # extract_* and set_last_datetime on projects with arbitrary logs
         k = 60 if ctx.tier == "quick" else 1500
         for i in range(k):
